@@ -85,3 +85,51 @@ Proof.
       intros _. exists (rest ++ concat ps). split; [rewrite Hr, app_assoc; reflexivity|].
       intros E. apply app_eq_nil in E as [E _]. contradiction.
 Qed.
+
+(* ---- the reusable single-object writer ---- *)
+Definition so_call_ok (h : bytes) (payload : option bytes) (out : option nat * bytes) : Prop :=
+  match fst out with
+  | Some n => exists p, payload = Some p /\ snd out = h ++ p /\ n = length (h ++ p)
+  | None => (payload = None /\ snd out = []) \/
+            (exists p rest, payload = Some p /\ h ++ p = snd out ++ rest /\ rest <> [])
+  end.
+
+Lemma skipn_app_exact {A} (a b : list A) : skipn (length a) (a ++ b) = b.
+Proof. induction a as [|x a IH]; [reflexivity|exact IH]. Qed.
+
+Lemma firstn_app_exact {A} (a b : list A) : firstn (length a) (a ++ b) = a.
+Proof. induction a as [|x a IH]; [reflexivity|cbn [length app firstn]; rewrite IH; reflexivity]. Qed.
+
+Lemma sow_write_spec h s payload :
+  so_guard h = true ->
+  let '(res, h', s') := sow_write h s payload in
+  h' = h /\ exists taken, sk_data s' = sk_data s ++ taken /\ so_call_ok h payload (res, taken).
+Proof.
+  intros Hg. unfold sow_write. rewrite Hg. destruct payload as [p|].
+  - pose proof (write_all_spec (wa_fuel s (h ++ p)) s (h ++ p) ltac:(unfold wa_fuel; lia)) as Hw.
+    destruct (write_all (wa_fuel s (h ++ p)) s (h ++ p)) as [[|] s1] eqn:Ew;
+      destruct Hw as (t & Hd & Hok & Herr); (split; [apply firstn_app_exact|]); exists t; (split; [exact Hd|]).
+    + unfold so_call_ok. cbn [fst snd]. exists p. rewrite (Hok eq_refl). repeat split; reflexivity.
+    + unfold so_call_ok. cbn [fst snd]. right. destruct (Herr eq_refl) as (rest & Hr & Hne).
+      exists p, rest. repeat split; assumption.
+  - split; [reflexivity|]. exists []. rewrite app_nil_r. split; [reflexivity|]. left. split; reflexivity.
+Qed.
+
+(* every history on one writer: the buffer is the header again after every call, and every call
+   either reports the length of header ++ payload having delivered exactly that, or reports an
+   error having delivered a strict prefix of it; the sink holds the deliveries in order *)
+Theorem sow_run_spec : forall ops h s,
+  so_guard h = true ->
+  let '(outs, h', s') := sow_run h s ops in
+  h' = h /\ sk_data s' = sk_data s ++ concat (map snd outs) /\ Forall2 (so_call_ok h) ops outs.
+Proof.
+  induction ops as [|p ops IH]; intros h s Hg.
+  - cbn [sow_run map concat]. rewrite app_nil_r. repeat split. constructor.
+  - cbn [sow_run]. pose proof (sow_write_spec h s p Hg) as Hw.
+    destruct (sow_write h s p) as [[res h1] s1] eqn:Ew. destruct Hw as (Hh & t & Hd & Hc). subst h1.
+    specialize (IH h s1 Hg). destruct (sow_run h s1 ops) as [[outs hn] sn] eqn:Er.
+    destruct IH as (Hhn & Hdn & Hall).
+    rewrite Hd, skipn_app_exact. split; [exact Hhn|]. split.
+    + cbn [map snd concat]. rewrite Hdn, Hd, app_assoc. reflexivity.
+    + constructor; [exact Hc|exact Hall].
+Qed.
